@@ -684,17 +684,31 @@ theorem push_no_panic {d : Dec} (h : Inv d) (b : UInt8) (s : String) :
 theorem reset_cap (d : Dec) : d.reset.1.buf.cap = d.buf.cap := rfl
 theorem finalize_cap (d : Dec) : d.finalize.1.buf.cap = d.buf.cap := rfl
 
+/-- `Decoder::from_buf(buf)` clears the buffer: whatever it held, the result is a new decoder
+over a buffer of that capacity -/
+theorem fromBuf_eq_fresh (cap : Option Nat) (r : List UInt8) :
+    fromBuf { cap := cap, rdata := r } = fresh cap := rfl
+
+theorem step_new (d : Dec) : d.step .new = (fresh d.buf.cap, .new) := rfl
+
+theorem step_fromBuf (d : Dec) (stale : List UInt8) :
+    d.step (.fromBuf stale) = (fresh d.buf.cap, .fromBuf) := rfl
+
 theorem step_inv {d : Dec} (h : Inv d) (op : Op) : Inv (d.step op).1 := by
   cases op with
   | push b => exact push_inv h b
   | fin => exact inv_finalize d
   | reset => exact inv_reset d
+  | new => exact inv_fresh d.buf.cap
+  | fromBuf stale => exact inv_fresh d.buf.cap
 
 theorem step_cap {d : Dec} (h : Inv d) (op : Op) : (d.step op).1.buf.cap = d.buf.cap := by
   cases op with
   | push b => exact push_cap h b
   | fin => rfl
   | reset => rfl
+  | new => rfl
+  | fromBuf stale => rfl
 
 theorem step_no_panic {d : Dec} (h : Inv d) (op : Op) (s : String) :
     (d.step op).2 ≠ .out (.panic s) := by
@@ -706,6 +720,8 @@ theorem step_no_panic {d : Dec} (h : Inv d) (op : Op) (s : String) :
     simpa [step] using hc
   | fin => simp [step]
   | reset => simp [step]
+  | new => simp [step]
+  | fromBuf stale => simp [step]
 
 theorem run_nil (d : Dec) : d.run [] = (d, []) := rfl
 
@@ -1221,6 +1237,7 @@ theorem readLoop_good (kind : SrcKind) (evs : List Ev) : ∀ {d : Dec}, Dec.Inv 
         · exact onIoErr_good _ h _ _
         · simp
     | other => rw [readLoop]; exact onIoErr_good _ h _ _
+    | eof => cases kind <;> exact onIoErr_good _ h _ _
 
 theorem read_good {r : Rdr} (h : Dec.Inv r.dec) : GoodR r.read := readLoop_good _ _ h
 
@@ -1285,11 +1302,15 @@ def GoodE (x : Enc × EOut) : Prop := EInv x.1 ∧ ∀ t, x.2 ≠ .panic t
 theorem einv_new (p : List UInt8) : EInv (Enc.new p) := by simp [EInv, Enc.new]
 
 theorem nextFin_good (e : Enc) {n : Int} (h1 : -3 ≤ n) (h2 : n ≤ 8) : GoodE (nextFin e n) := by
-  unfold nextFin
-  repeat' split
-  all_goals first
-    | omega
-    | exact ⟨by simp only [EInv]; omega, fun t => by simp⟩
+  by_cases h : 6 ≤ n ∧ n < 8
+  · -- `crc_bytes[(n - 6) as usize]`: the index is 0 or 1, the explicit panic site is not taken
+    rw [nextFin_crc e h.1 h.2]
+    exact ⟨by simp only [EInv]; omega, fun t => by simp⟩
+  · unfold nextFin
+    repeat' split
+    all_goals first
+      | omega
+      | exact ⟨by simp only [EInv]; omega, fun t => by simp⟩
 
 theorem nextLook_good (e : Enc) {n : Nat} (h : n < 4) : GoodE (nextLook e n) := by
   unfold nextLook
@@ -1424,6 +1445,8 @@ theorem step_norm (d : Dec) (op : Op) :
     cases op with
     | fin => exact ⟨rfl, rfl⟩
     | reset => exact ⟨rfl, rfl⟩
+    | new => exact ⟨rfl, rfl⟩
+    | fromBuf stale => exact ⟨rfl, rfl⟩
     | push b =>
       have h := pushLook_crc (raw + 1) crc crcInit x y zc buf x y b
       have e1 : pushByte ⟨raw, crc, .look x y, zc, buf⟩ b
@@ -1441,6 +1464,8 @@ theorem step_norm (d : Dec) (op : Op) :
     cases op with
     | fin => exact ⟨rfl, rfl⟩
     | reset => exact ⟨rfl, rfl⟩
+    | new => exact ⟨rfl, rfl⟩
+    | fromBuf stale => exact ⟨rfl, rfl⟩
     | push b =>
       have h := pushLook_crc 1 crc crcInit 0 0 0 buf.clear 0 0 b
       have e1 : pushByte ⟨raw, crc, .done, zc, buf⟩ b
@@ -1483,6 +1508,8 @@ theorem step_fresh_or (d : Dec) (op : Op) :
   cases op with
   | fin => exact Or.inl (norm_reset d)
   | reset => exact Or.inl (norm_reset d)
+  | new => exact Or.inl rfl
+  | fromBuf stale => exact Or.inl rfl
   | push b =>
     simp only [step]
     rw [push_eq]
